@@ -190,7 +190,20 @@ class Mod:
         t.append("Y%d" % len(am))                       # (amend, rc, target import): its compilation fails
         for x in am:
             t += [x[2], str(x[1])]
+        # submodule names (yang-library `submodule` list), top-level data nodes of the compiled module, and per augment / deviation
+        # statement the (import, top-level node) it descends into
+        t.append("S%d" % len(self.subs)); t += [s.name for s in self.subs]
+        nodes = self.top_nodes()
+        t.append("T%d" % len(nodes)); t += nodes
+        t.append("Q%d" % len(aug))
+        for x in aug: t += [x, "c"]
+        t.append("D%d" % len(dev))
+        for x in dev: t += [x, "c"]
         return " ".join(t)
+
+    def top_nodes(self):
+        """names of the top-level data nodes in the order of the compiled module: main module, then submodules"""
+        return (["c"] if self.data else []) + ["cs_" + s.name for s in self.subs if s.data]
 
 
 def feats_tok(f):
@@ -297,7 +310,9 @@ class Snap:
             # name@rev : I<b> : L<x> : feats : c<class>.<fnv>
             cls = f[4][1:]
             self.mods.append({"key": f[0], "impl": f[1] == "I1", "latest": int(f[2][1:], 16), "feats": f[3],
-                              "cls": cls.split(".")[0], "fnv": cls.split(".")[1] if "." in cls else cls})
+                              "cls": cls.split(".")[0], "fnv": cls.split(".")[1] if "." in cls else cls,
+                              "augby": f[5][1:] if len(f) > 5 else "-", "devby": f[6][1:] if len(f) > 6 else "-",
+                              "nodes": f[7][1:] if len(f) > 7 else "-"})
         self.hash = p[2][2:]
         self.cc = int(p[3][3:])
         self.data = p[4][2:]
@@ -305,6 +320,28 @@ class Snap:
     def obs(self, latest_bit=True, fnv=True):
         """what C09 calls the observable context: modules, revisions, implemented, (latest), features, compiled schema, hash"""
         return (tuple((m["key"], m["impl"], (m["latest"] & 1) if latest_bit else None, m["feats"], m["fnv"] if fnv else m["cls"]) for m in self.mods), self.hash)
+
+
+def stale_compiled(tok):
+    """does the snapshot show an implemented module whose compiled top-level nodes name an augmenting / deviating module that is
+    not (any more) in its augmented_by / deviated_by array?  (F380: compiled with a module that the revert removed)"""
+    if not tok or tok[0] in "DXY" or "|" not in tok:
+        return False
+    try:
+        s = Snap(strip_x(tok))
+    except Exception:
+        return False
+    for m in s.mods:
+        if m["nodes"] in ("-", ""):
+            continue
+        ab = {x.split("@")[0] for x in m["augby"].split(",")} if m["augby"] != "-" else set()
+        db = {x.split("@")[0] for x in m["devby"].split(",")} if m["devby"] != "-" else set()
+        for n in m["nodes"].split("+"):
+            inner = n[n.index("(") + 1:-1]
+            a, d = inner.split("/")
+            if any(x and x not in ab for x in a.split(",")) or any(x and x not in db for x in d.split(",")):
+                return True
+    return False
 
 
 def model_broken(tok):
@@ -318,7 +355,7 @@ def strip_x(tok):
 
 def strip_fnv(tok):
     """model replies carry no text hash: drop `.xxxxxxxx` after the class index"""
-    if tok.startswith("D"):
+    if tok.startswith("D") or tok.startswith("X"):
         return tok
     out = []
     p = tok.split("|")
@@ -669,6 +706,112 @@ def gen_amend_history(rng):
     return h
 
 
+def gen_amend2_history(rng):
+    """Directed family for `augmented_by` / `deviated_by` and the compiled top-level nodes: two targets that are IMPLEMENTED when the
+    failing call starts — one parsed directly, the other one in the context as an import only and implemented later (by
+    lys_set_implemented, or as the augment target of a correct module) —; a module that augments AND deviates both of them (in
+    either order) fails at any stage; targets without revision, features that live in submodules, an earlier correct amender so
+    that the arrays are not empty before the call."""
+    sf = [Feat("s1"), Feat("s2", "s1")] if rng.random() < 0.6 else [Feat("s1")]
+    t1 = Mod("maa", rng.choice([None, None, "2019-01-01"]), data=True, subs=[Sub("maasub", sf, rng.random() < 0.5)],
+             feats=gen_feats(rng) if rng.random() < 0.4 else [])
+    t2 = Mod("mbb", rng.choice([None, None, "2020-02-02"]), data=True, feats=gen_feats(rng),
+             imports=[("maa", None)] if rng.random() < 0.4 else [])
+    if t2.imports and rng.random() < 0.5:
+        t2.augments.append("maa")
+    holder = Mod("mdd", None, imports=[("maa", None), ("mbb", None)], data=rng.random() < 0.5)
+    early = Mod("mcc", None, imports=[("maa", None), ("mbb", None)], data=rng.random() < 0.6)
+    for n in ("maa", "mbb"):
+        if rng.random() < 0.6: early.augments.append(n)
+        if rng.random() < 0.5: early.deviations.append((n, 2))
+    bad0 = Mod("mee", None, imports=[("mbb", None), ("maa", None)] if rng.random() < 0.5 else [("maa", None), ("mbb", None)],
+               data=rng.random() < 0.7)
+    bad0.augments = rng.sample(["maa", "mbb"], 2)
+    bad0.deviations = [(n, 3) for n in rng.sample(["maa", "mbb"], 2)]
+    if bad0.data and rng.random() < 0.3:
+        bad0.lrefs = [rng.choice(["maa", "mbb"])]
+    mods = [t1, t2, holder, early, bad0]
+    kind, tgt = rng.choice(applicable_edits(bad0, mods))
+    bad = apply_edit(bad0, kind, tgt, rng.choice([t1, t2]).ns)
+    good = Mod("mgood", None, imports=[("maa", None)], augments=["maa"], feats=[Feat("g1")])
+    h = History(EXPLICIT if rng.random() < 0.2 else 0)
+    for m in [t1, t2, holder, early, bad, good]:
+        h.add(m)
+    kinds = ["amend-two-targets", "bad-parse:" + kind]
+    order = rng.random()
+    if order < 0.5:
+        h.parse(t1, gen_featarg(rng, t1)); h.parse(holder, None)          # maa implemented, mbb import only
+        late = t2
+    else:
+        h.parse(holder, None); h.parse(t2, gen_featarg(rng, t2))          # both imports only, then mbb implemented
+        late = t1
+    if rng.random() < 0.5:
+        h.impl(late.name, late.rev, gen_featarg(rng, late)); kinds.append("impl")
+        if rng.random() < 0.6:
+            h.parse(early, None); kinds.append("parse")
+    else:
+        early.augments = [late.name] + [x for x in early.augments if x != late.name]      # implements `late` as its augment target
+        h.add(early)
+        h.parse(early, None); kinds.append("parse")
+        if rng.random() < 0.5:
+            other = t1 if late is t2 else t2
+            h.impl(other.name, other.rev, None)
+    if h.flags & EXPLICIT:
+        h.compile()
+    if rng.random() < 0.4:
+        h.data(rng.choice(["maa", "mbb"]))
+    h.parse(bad, gen_featarg(rng, bad))
+    if h.flags & EXPLICIT:
+        h.compile(); kinds.append("compile")
+    h.parse(good, rng.choice([None, ["g1"]])); kinds.append("good")
+    if rng.random() < 0.3:
+        h.add(bad0)                                                         # the edit is taken back: the module loads
+        h.parse(bad0, None); kinds.append("parse")
+    if h.flags & EXPLICIT:
+        h.compile()
+    h.meta = {"kinds": kinds}
+    return h
+
+
+def gen_yl_dev_history(rng):
+    """Directed family for the yang-library lists: modules without revision (and an alternative dated revision among the sources
+    for some), features that live in submodules only, `deviation` lists with two entries whose order depends on the history,
+    import-only modules with submodules."""
+    a = Mod("maa", rng.choice([None, None, "2019-01-01"]), data=True,
+            subs=[Sub("maasub", [Feat("s1")], rng.random() < 0.5), Sub("maasub2", [Feat("t1"), Feat("t2", "t1")], False)])
+    b = Mod("mbb", rng.choice([None, "2020-02-02"]), imports=[("maa", a.rev if (a.rev and rng.random() < 0.5) else None)], data=True,
+            deviations=[("maa", 1)], augments=["maa"] if rng.random() < 0.5 else [], feats=gen_feats(rng))
+    c = Mod("mcc", None, imports=[("maa", None), ("mbb", None)], data=rng.random() < 0.7, deviations=[("maa", 2), ("mbb", 2)],
+            subs=[Sub("mccsub", gen_feats(rng, "u"), False)] if rng.random() < 0.5 else [])
+    d = Mod("mdd", rng.choice([None, "2019-01-01"]), imports=[("mcc", None)] if rng.random() < 0.5 else [("maa", None)],
+            subs=[Sub("mddsub", [Feat("v1")], True)])
+    mods = [a, b, c, d]
+    h = History(EXPLICIT if rng.random() < 0.2 else 0)
+    for m in mods:
+        h.add(m)
+    if rng.random() < 0.25:
+        o = rng.choice([a, b])
+        alt = copy.deepcopy(o)
+        alt.rev = "2021-03-03"
+        for sub in alt.subs: sub.name += "x"
+        h.add(alt)
+    kinds = ["yl-lists"]
+    order = rng.sample(mods, rng.randint(2, 4))
+    for m in order:
+        r = rng.random()
+        if r < 0.6:
+            h.parse(m, gen_featarg(rng, m)); kinds.append("parse")
+        else:
+            h.load(m.name, m.rev, gen_featarg(rng, m)); kinds.append("load")
+    for _ in range(rng.randint(0, 2)):
+        m = rng.choice(mods)
+        h.impl(m.name, m.rev, gen_featarg(rng, m)); kinds.append("impl")
+    if h.flags & EXPLICIT:
+        h.compile()
+    h.meta = {"kinds": kinds}
+    return h
+
+
 def gen_yl_history(rng, mods=None, with_alt=True):
     """histories of successful (and a few refused) calls over unchanged sources: what a yang-library description is about"""
     mods = mods or gen_set(rng)
@@ -746,4 +889,11 @@ def witnesses():
     md = Mod("mdd", None, imports=[("maa", None), ("mcc", None)], lrefs=["mcc"])
     mz = apply_edit(Mod("mzz", None, imports=[("maa", None)]), "typedef")
     h = History(); [h.add(x) for x in (ma, mb, mc, md)]; h.parse(md); h.add(mz); h.parse(mz); w["F137"] = ("F137", h, 1)
+    # Props/C19.lean yl_roundtrip_order_fails: `top` (dateless import of aaa) is listed before aaa@2019-01-01 in the yang-library
+    # data while a newer aaa is among the sources: the rebuilt context holds aaa@2020-01-01 as an additional import-only module
+    h = History(); h.add(W_A19()); t = h.add(Mod("top", "2018-01-01", imports=[("aaa", None)])); h.parse(t); h.add(W_A20())
+    h.impl("aaa", "2019-01-01"); w["order"] = ("order", h, 1)
+    # F380 (Props/C09.lean stale_compiled_after_failed_compile): the failed ly_ctx_compile leaves aaa compiled with the augment of ccc
+    h = History(EXPLICIT); a = h.add(W_A()); h.parse(a); h.compile(); b = h.add(apply_edit(Mod("bbb"), "default")); h.parse(b)
+    c = h.add(W_C()); h.parse(c); h.compile(); w["F380"] = ("F380", h, 4)
     return w
